@@ -18,9 +18,10 @@ from .. import common, rt, gen_core, aspast
 
 PROP = 'C01'
 MODULES = ['Cnl2aspModel.Props.C01']
-THEOREMS = ['C01_main', 'C01_bounds_table', 'C01_prohibited', 'C01_required', 'C01_choice', 'C01_closed', 'C01_stratified_check']
+THEOREMS = ['C01_main', 'C01_decide', 'C01_bounds_table', 'C01_prohibited', 'C01_required', 'C01_choice', 'C01_closed',
+            'C01_stratified_check']
 EXTRA = ['Cnl2aspModel.Asp.Sem', 'Cnl2aspModel.Asp.SemLemmas', 'Cnl2aspModel.Cnl.Core', 'Cnl2aspModel.Cnl.CoreLemmas',
-         'Cnl2aspModel.Cnl.Stratify']
+         'Cnl2aspModel.Cnl.Stratify', 'Cnl2aspModel.Cnl.RefExec', 'Cnl2aspModel.Cnl.RefExecLemmas', 'Cnl2aspModel.Cnl.RefExecSound']
 
 OPSYM = {'eq': '=', 'ne': '!=', 'lt': '<', 'le': '<=', 'gt': '>', 'ge': '>='}
 
@@ -362,9 +363,25 @@ def make_probes(A, R, k=4):
 def lean_reading_check(run, items):
     """items: (spec_ast, probes, text).  The Lean executable twin of RefModel (Cnl/RefExec.lean) must agree with the Python
     enumeration of the direct reading on every probe."""
+    def nvars(o, acc):
+        if isinstance(o, dict):
+            if set(o.keys()) == {'v'}:
+                acc.add(o['v'])
+            for x in o.values():
+                nvars(x, acc)
+        elif isinstance(o, list):
+            for x in o:
+                nvars(x, acc)
+        return acc
     reqs, idx = [], []
+    skipped = 0
     for ast, probes, text in items:
         if not probes:
+            continue
+        usize = len({v for s in ast if s['k'] == 'facts' for t in s['tuples'] for v in t})
+        worst = max((len(nvars(s, set())) for s in ast if s['k'] != 'facts'), default=0)
+        if (usize ** worst) * len(probes) > 300000:
+            skipped += 1         # the twin enumerates |U|^vars assignments per sentence: keep the run bounded
             continue
         universe = []
         for s in ast:
@@ -378,7 +395,10 @@ def lean_reading_check(run, items):
         idx.append((ast, probes, text))
     answers = common.run_model(reqs) if reqs else []
     n = 0
+    exact = 0
     for (ast, probes, text), a in zip(idx, answers):
+        if a is not None and a.get('exact'):
+            exact += len(probes)
         if a is None or 'err' in a:
             run.broke('corr', 'the driver cannot evaluate the direct reading on a generated specification', {'cnl': text, 'answer': a})
             continue
@@ -390,6 +410,8 @@ def lean_reading_check(run, items):
                           'the same reading disagree)', {'cnl': text, 'interpretation': m, 'lean': lean, 'python_reference_model': in_ref})
                 break
     run.coverage['reading_probes'] = n
+    run.coverage['reading_probes_decided_by_the_proved_procedure'] = exact     # hypotheses of C01_decide evaluated true by the driver
+    run.coverage['reading_probe_specs_skipped_for_size'] = skipped
 
 
 def _job(args):
@@ -462,7 +484,9 @@ def main(tier):
             continue
         if 'rejected' in r:
             stats['rejected'] += 1
-            run.note(f'rejected by the compiler: {r["rejected"][:160]} :: {sp.sentences[-1].text[:120]}')
+            # the generator writes specifications of the fragment only: a rejection leaves the specification without a program
+            run.violation('rejected/' + sp.sentences[-1].kind, f'a specification of the fragment is rejected by the compiler: {r["rejected"][:200]}',
+                          {'cnl': sp.text(), 'error': r['rejected']})
             continue
         stats['accepted'] += 1
         run.count(sp.text())
